@@ -236,3 +236,28 @@ package linkedlog
 //@   loop 0 invariant 0 <= rangeidx0 && rangeidx0 <= len(indexes)
 //@   loop 0 invariant len(buf) == offAt(indexes, rangeidx0)
 //@   loop 0 use unfold(offAt(indexes, rangeidx0+1))
+
+// ---- writer: record format at the write site (C06) ----
+// A record is uvarint(len(zstd) + 9) ++ zstd ++ previous-record pointer (9 bytes): the length prefix counts the compressed
+// entries AND the trailing pointer, which is what ReadWithSize derives the prefix width from. Stated as a call-site condition
+// on the single s.write call of Put (the payload is assembled inline in a function literal that is executed in place).
+//@ func (*LinkedLog) getSize
+//@   mode int
+//@   requires held(s.writeMu) == 0
+//@   modifies s
+//@   ensures held(s.writeMu) == 0 && result1 == nil && result0 == int64(s.offset) && *s == old(*s)
+
+//@ func (*LinkedLog) Put
+//@   mode int
+//@   requires callbackBefore != nil && callbackAfter != nil && s.buffer != nil
+//@   requires held(s.mu) == 0 && held(s.writeMu) == 0
+//@   # assumed (trusted boundary): the two callbacks (closures of the gsfa writer over its offsets map) write nothing that Put
+//@   # reads - in particular not the payload under construction - and do not call back into this LinkedLog
+//@   fncall callbackBefore ensures true
+//@   fncall callbackAfter ensures true
+//@   requires forall i int :: 0 <= i && i < len(values) ==> forall j int :: 0 <= j && j < len(values[i].Values) ==> values[i].Values[j] != nil
+//@   fncall s.write requires len(arg0) == uvl(uint64(len(encodedIndexes)) + 9) + len(encodedIndexes) + 9
+//@   fncall s.write requires uvAt(arg0, 0, uint64(len(encodedIndexes)) + 9)
+//@   fncall s.write requires forall k int :: 0 <= k && k < len(encodedIndexes) ==> arg0[uvl(uint64(len(encodedIndexes)) + 9) + k] == encodedIndexes[k]
+//@   loop 0 invariant held(s.mu) == 2 && held(s.writeMu) == 0 && s.buffer != nil
+//@   noframe
